@@ -42,9 +42,9 @@ type cvsStmt struct {
 	FieldOps string `json:"field_ops,omitempty"` // operator classes of the field list
 	MaskTime bool   `json:"mask_time,omitempty"`
 	// the WHERE clause reads a field and the statement aggregates: all-null rows are noise (see cvsRunOne)
-	FieldFilterAgg bool `json:"field_filter_on_aggregate,omitempty"`
-	Tol      []int  `json:"tolerance_ulps,omitempty"` // per output column after time (nil: exact); a single element applies to all
-	feats    map[string]bool
+	FieldFilterAgg bool  `json:"field_filter_on_aggregate,omitempty"`
+	Tol            []int `json:"tolerance_ulps,omitempty"` // per output column after time (nil: exact); a single element applies to all
+	feats          map[string]bool
 }
 
 func (st *cvsStmt) shape() string {
